@@ -418,7 +418,7 @@ def validate_oracle(ctx, items):
 
 def run(ctx: Ctx) -> None:
     quick = ctx.quick
-    fam = [(0, sql, (f"family.{f}",)) for f, sql in focused_families()]
+    fam = [(0, sql, (f"family.{f}",)) for f, sql in focused_families(full=not quick)]
     k1 = expressions(1)
     k2 = [x for x in expressions(2) if x[0] == 2]
     plan = [("k1", k1, "full", True), ("fam", fam, "full", True), ("k2", k2, "full" if not quick else "base", True)]
